@@ -21,6 +21,12 @@ CLAIMED = {
  "C03": ("lattice", "deviation-bounded exhaustive enumeration (k<=2 quick, k<=3 thorough) x full configuration product against a three-valued reference model",
          "Every point with at most k fields (issuers, recipients, destination, audience sequences, status) deviating from the valid message, crossed with the full product of signing layout, EntityID set/unset, audience validator, received-at URL and entry point, is signed by the harness IdP and pushed through the public API; verdicts are compared with a reference model written from the statement.",
          "DESIGN.md §3 C03", TRUST),
+ "C10": ("lattice", "bounded-exhaustive enumeration (full product of lengths x patterns x ciphers x key transports x keys) with round-trip and differential oracle against an independent implementation",
+         "Every plaintext length 0..65 (+5 long) x content pattern x block cipher x key transport x RSA key x nonce mode is encrypted by the package and decrypted by the package and by an independent W3C implementation (engine/xenc), and vice versa; wrong-size keys 0..33 must be errors; repository samples decrypt under both.",
+         "DESIGN.md §3 C10", "Go standard library crypto primitives; engine/xenc (independent implementation written from the W3C specification); byte contents and keys limited to the listed patterns"),
+ "C11": ("lattice", "bounded-exhaustive enumeration of malformed ciphertext elements (lengths, identifiers, structure operators, key types, GCM bit flips) with a totality + must-reject oracle",
+         "Every CipherValue length 0..65 per algorithm (direct/wrapped), crafted padding bytes, encodings, identifier substitutions at both levels, single and paired structure operators, every admitted Go key type, every single-bit flip of AES-GCM cipher values, and the same elements as attacker-built EncryptedAssertion through ParseXMLResponse: Decrypt must return plaintext xor error, never panic, and must reject the classes the statement lists.",
+         "DESIGN.md §3 C11", "element trees produced by the harness-side encryptor (engine/xenc) and mutated structurally; arbitrary bytes outside these families not covered"),
 }
 
 ALL = ["C%02d" % i for i in range(1, 21)]
